@@ -2,6 +2,7 @@ package main
 
 import (
 	"fmt"
+	"math/rand"
 	"sort"
 	"strings"
 
@@ -106,7 +107,7 @@ func c14(c *Ctx) {
 	}
 	sort.Strings(names)
 	recvs := recvTypes()
-	c.Rule = fmt.Sprintf("exhaustive: %d functions (+1 unknown name) x %d receiver types x argument lists {conformant with 0..2 values for a variadic parameter, one too many}; each validated (verdict + reported type vs the model and vs an oracle computed from ListFunctions()), every accepted Boolean call once more as an operand of a logical operation, each accepted conformant call evaluated on every data instance of the receiver type; random chains of 2-3 calls. Recorded deviations are matched as known findings by class. Non-trivial = the call is accepted; distinct by (query, schema).", len(names), len(recvs))
+	c.Rule = fmt.Sprintf("exhaustive: %d functions (+1 unknown name) x %d receiver types x argument lists {conformant with 0..2 values for a variadic parameter, one too many}; each validated (verdict + reported type vs the model and vs an oracle computed from ListFunctions()), every accepted Boolean call once more as an operand of a logical operation, every accepted conformant call extended by every second call (and a seeded sample of the accepted pairs by a third): accepted iff the descriptor admits the type reported for the previous call, reporting its Returns type; each accepted conformant call and chain evaluated on every data instance of the receiver type. Recorded deviations are matched as known findings by class. Non-trivial = the call is accepted; distinct by (query, schema).", len(names), len(recvs))
 	var schemaCue, schemaSexp []string
 	for _, r := range recvs {
 		schemaCue = append(schemaCue, r.field+": "+r.cue)
@@ -124,6 +125,7 @@ func c14(c *Ctx) {
 		gap        bool
 		wantPT     string
 		wantIO     string
+		prefix     string // for a chain: the query without its last call
 	}
 	var cases []vcase
 	admits := func(on mpath.InputOrOutput, r recvT) (ok, gap bool) {
@@ -279,12 +281,140 @@ func c14(c *Ctx) {
 			c.Sample(map[string]any{"query": vc.q, "accepted": accept, "reported": rv.RetType + "/" + rv.RetIO})
 		}
 	}
+	// chains: every accepted conformant call is followed by a second call (every function, conformant
+	// arguments), and a seeded sample of the accepted pairs by a third.  The receiver of a later call is
+	// the value the previous call returns, so its type is the type reported for the previous call: the
+	// call is accepted iff its descriptor admits that type, and reports its Returns type — the element's
+	// type for First / Last / Index only on a list whose element type is known (not after AsArray:
+	// what that returns is a list of lists).
+	{
+		type chainCase struct {
+			q               string
+			base            evalRef
+			fn              string
+			recvPT, recvIO  string
+			wantAccept, gap bool
+			wantPT, wantIO  string
+			depth           int
+		}
+		conformantArgs := func(d mpath.FunctionDescriptor) []string {
+			args := []string{}
+			for i, p := range d.Params {
+				if p.IOType == mpath.IOOT_Variadic {
+					continue
+				}
+				args = append(args, argFor(p.Type, i))
+			}
+			return args
+		}
+		extend := func(prev []chainCase, level int, sample int) []chainCase {
+			var out []chainCase
+			for _, pc := range prev {
+				for _, fn := range names {
+					if fn == "Select" {
+						continue // its argument is a query of its own
+					}
+					if sample > 1 && r14(c).Intn(sample) != 0 {
+						continue
+					}
+					d := fs[mpath.FT_FunctionType(fn)]
+					rt := recvT{ptype: pc.recvPT, io: pc.recvIO}
+					ok, gap := admits(d.ValidOn, rt)
+					cc := chainCase{q: pc.q + "." + fn + "(" + strings.Join(conformantArgs(d), ",") + ")", base: pc.base, fn: fn, wantAccept: ok, gap: gap,
+						wantPT: string(d.Returns.Type), wantIO: string(d.Returns.IOType), depth: level}
+					if (fn == "First" || fn == "Last" || fn == "Index") && pc.recvIO == "Array" && pc.recvPT != "Any" {
+						cc.wantPT = pc.recvPT
+					}
+					cc.recvPT, cc.recvIO = cc.wantPT, cc.wantIO // the receiver type of the NEXT call, when this one is accepted
+					out = append(out, cc)
+				}
+			}
+			return out
+		}
+		var level1 []chainCase
+		for _, ref := range toEval {
+			level1 = append(level1, chainCase{q: ref.vc.q, base: ref, recvPT: ref.pt, recvIO: ref.io})
+		}
+		runChains := func(cs []chainCase) (accepted []chainCase) {
+			jobs := make([]h.Job, len(cs))
+			lines := make([]string, len(cs))
+			for i, cc := range cs {
+				jobs[i] = valJob(cc.q, cueText, "")
+				lines[i] = "validate\t" + hexs(cc.q) + "\t" + sexpText + "\tx\t()"
+			}
+			replies := h.RunJobs(jobs, 12)
+			var model []string
+			if c.Proofs.ModelBuilt {
+				var err error
+				model, err = h.RunModel(c.Driver, lines)
+				c.CrossAll(lines, model)
+				if err != nil {
+					model = nil
+				}
+			}
+			for i, cc := range cs {
+				rv := parseVal(replies[i])
+				c.Evals++
+				accept := rv.Class == "ok" && !rv.HasErrors
+				c.Count(fmt.Sprintf("chain%d:%v", cc.depth, accept))
+				cs0 := map[string]any{"kind": "validate", "query": cc.q, "schema": cueText, "schema_sexp": sexpText, "current": "", "implementation": fmt.Sprintf("%v %s/%s", accept, rv.RetType, rv.RetIO), "impl_errors": rv.Errors, "impl_err": rv.Err}
+				if rv.Class == "panic" || rv.Class == "fatal" || rv.Class == "hang" {
+					c.Violation("relation", fmt.Sprintf("query %q: CueValidate %s", cc.q, rv.Class), cs0)
+					continue
+				}
+				if accept {
+					c.Distinct[cc.q] = true
+				}
+				if !cc.gap {
+					if accept != cc.wantAccept {
+						c.Violation("relation", fmt.Sprintf("query %q: the last call is applied to a value of type %s/%s; by its descriptor it must be %s, CueValidate %s it %v", cc.q, cs[i].base.pt, cs[i].base.io, map[bool]string{true: "accepted", false: "rejected"}[cc.wantAccept], map[bool]string{true: "accepts", false: "rejects"}[accept], rv.Errors), cs0)
+					} else if accept && (rv.RetType != cc.wantPT || rv.RetIO != cc.wantIO) {
+						c.Violation("relation", fmt.Sprintf("query %q: the descriptor says the last call returns %s/%s, CueValidate reports %s/%s", cc.q, cc.wantPT, cc.wantIO, rv.RetType, rv.RetIO), cs0)
+					}
+				}
+				if model != nil {
+					f := strings.Fields(model[i])
+					if len(f) >= 4 && (f[0] == "ok" || f[0] == "err") {
+						mAccept := f[0] == "ok" && f[1] == "0"
+						mt := strings.ReplaceAll(f[2]+"/"+f[3], "-", "")
+						if mAccept != accept || (accept && mt != rv.RetType+"/"+rv.RetIO) {
+							cs2 := map[string]any{"model": model[i]}
+							for k, v := range cs0 {
+								cs2[k] = v
+							}
+							c.Violation("mismatch", fmt.Sprintf("query %q: implementation %v %s/%s, model/spec %v %s", cc.q, accept, rv.RetType, rv.RetIO, mAccept, mt), cs2)
+						}
+					} else {
+						c.Declined++
+					}
+				}
+				if accept && !cc.gap && cc.wantAccept {
+					cc.recvPT, cc.recvIO = rv.RetType, rv.RetIO
+					accepted = append(accepted, cc)
+				}
+			}
+			return accepted
+		}
+		acc2 := runChains(extend(level1, 2, 1))
+		acc3 := runChains(extend(acc2, 3, c.N(40, 6)))
+		for _, cc := range append(acc2, acc3...) {
+			toEval = append(toEval, evalRef{vcase{q: cc.q, fn: cc.fn, recv: cc.base.vc.recv, conformant: true, prefix: cc.q[:strings.LastIndex(cc.q, "."+cc.fn+"(")]}, cc.recvPT, cc.recvIO})
+		}
+		c.Note("chains_of_two", len(acc2))
+		c.Note("chains_of_three", len(acc3))
+	}
 	// type soundness: evaluate the accepted conformant calls on data of the schema
 	type er struct {
 		ref evalRef
 		ec  *EvalCase
 	}
 	var ers []er
+	type pend struct {
+		e      er
+		prefix *EvalCase
+		cs     map[string]any
+	}
+	var pending []pend
 	for _, ref := range toEval {
 		for _, d := range ref.vc.recv.data {
 			doc := h.Obj(ref.vc.recv.field, d, "k", h.Str("a"))
@@ -311,6 +441,11 @@ func c14(c *Ctx) {
 					continue // an argument read from a `_` field can hold anything: what it holds is data-dependent
 				}
 				if strings.Contains(o.Note, w) {
+					if e.ref.vc.prefix != "" {
+						// a chain: was the value handed to the last call a string that reads as a number (the recorded finding)?
+						pending = append(pending, pend{e, c.AddEval(e.ref.vc.prefix, e.ec.Data, "type-soundness:prefix", true, true), cs})
+						break
+					}
 					c.Violation("relation", fmt.Sprintf("query %q was accepted by CueValidate but fails at run time with a wrong-type error on conforming data: %s", e.ec.Query, o.Note), cs)
 					break
 				}
@@ -319,6 +454,14 @@ func c14(c *Ctx) {
 			c.Violation("relation", fmt.Sprintf("query %q on conforming data: %s", e.ec.Query, o.Class), cs)
 		}
 	}
+	c.RunEvalCases()
+	for _, p := range pending {
+		if v := p.prefix.Impl; v.Class == "ok" && v.Val != nil && v.Val.Tag == "s" && ratOf(v.Val) != nil {
+			p.cs["deviation"] = "numeral-string-receiver"
+			p.cs["receiver"] = v.Val.String()
+		}
+		c.Violation("relation", fmt.Sprintf("query %q was accepted by CueValidate but fails at run time with a wrong-type error on conforming data: %s", p.e.ec.Query, p.e.ec.Impl.Note), p.cs)
+	}
 	c.Note("validated_calls", len(cases))
 	c.Note("evaluated_calls", len(ers))
 }
@@ -326,3 +469,5 @@ func c14(c *Ctx) {
 // engFor supplies the engine oracle entries the model may need for this call (regex / json / decoders): none here;
 // such calls are declined by the model and compared on the implementation only.
 func engFor(q string, d *D) string { return "()" }
+
+func r14(c *Ctx) *rand.Rand { return c.Rng }
